@@ -210,6 +210,7 @@ struct Worker
           shim::g_thr = logical;
           if (tag == 'Y') LOG_INFO(logger, "Y statement {}", committed); else LOG_INFO(logger, "X statement {}", committed);
           shim::g_thr = -1;
+          if (!ctx) ctx = quill::detail::get_local_thread_context<FO>();
           ++committed;
         }
         else if (c == 6)
@@ -572,8 +573,18 @@ int main(int argc, char** argv)
       X.wait();
       std::string mode;
       ss >> mode;
-      // `drain n flush`: every new thread that has logged now calls flush_log(); it must return while the backend keeps running
-      if (mode == "flush") for (auto& z : Z) if (z.th.joinable() && z.committed > 0) z.post(4);
+      // `drain n flush`: every new thread that has logged now calls flush_log(); it must return while the backend keeps running.
+      // The backend's n iterations start only when every flush request is committed (so it cannot park before having seen them).
+      std::vector<Worker*> flushing;
+      if (mode == "flush")
+        for (auto& z : Z)
+          if (z.th.joinable() && z.committed > 0 && z.ctx)
+          {
+            size_t const before = z.wsize();
+            z.post(4);
+            while (z.wsize() == before) std::this_thread::sleep_for(std::chrono::microseconds{50});
+            flushing.push_back(&z);
+          }
       {
         std::unique_lock<std::mutex> l(s_mx);
         long const r0 = s_rloads;
@@ -581,8 +592,11 @@ int main(int argc, char** argv)
         s_policy = {"1:R:load"};
       }
       { std::unique_lock<std::mutex> l(s_mx); s_cv.wait(l, [] { return s_parked_at[1]; }); }      // parked again: its state can be read
+      // A request behind a delivered statement has been processed in those iterations (its flag is set): the call returns, wait for
+      // it. If a statement of a new thread is still unwritten, its context was never read: the calls that have not returned are stuck.
       long stuck = 0;
-      for (auto& z : Z) if (z.th.joinable()) { std::lock_guard<std::mutex> l(z.mx); if (!z.ack) ++stuck; }
+      if (g_delivered.load() >= Z[0].committed + Z[1].committed) for (auto* z : flushing) z->wait();
+      else for (auto* z : flushing) { std::lock_guard<std::mutex> l(z->mx); if (!z->ack) ++stuck; }
       emit("{\"e\":\"quiet\",\"cache\":" + std::to_string(cache_size()) + ",\"delivered\":" + std::to_string(g_delivered.load()) +
            ",\"zlogged\":" + std::to_string(Z[0].committed + Z[1].committed) + ",\"drops\":" + std::to_string(s_xdrops) +
            ",\"reported\":" + std::to_string(g_reported.load()) + ",\"xcalls\":" + std::to_string(X.committed) + ",\"flushstuck\":" + std::to_string(stuck) + "}");
